@@ -311,7 +311,22 @@ double c20npv ( pybind11::array_t< double > &a, int op, double k, int i, pybind1
 }
 """
 
-STATE = types.SimpleNamespace(np=None, dc=None, FV={}, npv=None)
+NPV2_CODE = r"""
+#include <cstddef>
+#include <dune/python/common/numpyvector.hh>
+// a NumPyVector that allocates its own array (the size constructor): y = k * x, handed back as the NumPy array y owns
+pybind11::array_t< double > c20npvnew ( pybind11::array_t< double > &a, double k )
+{
+  Dune::Python::NumPyVector< double > x( a );
+  Dune::Python::NumPyVector< double > y( x.size() );
+  for( std::size_t j = 0; j < y.size(); ++j )
+    y[ j ] = 0;
+  y.axpy( k, x );
+  return y;
+}
+"""
+
+STATE = types.SimpleNamespace(np=None, dc=None, FV={}, npv=None, npvnew=None)
 
 
 def prepare(need_sizes=FV_SIZES_ALL, need_shapes=TUP_SHAPES):
@@ -347,11 +362,16 @@ def prepare(need_sizes=FV_SIZES_ALL, need_shapes=TUP_SHAPES):
         algorithm.load("c20npv", StringIO(NPV_CODE), dummy, 0, 0.0, 0, dummy)
     except Collected:
         pass
+    try:
+        algorithm.load("c20npvnew", StringIO(NPV2_CODE), dummy, 0.0)
+    except Collected:
+        pass
     mods, BUILDER.collect = BUILDER.collect, None
     parallel(mods)
     for n in need_sizes:
         STATE.FV[n] = type(dc.FieldVector([0] * n))
     STATE.npv = algorithm.load("c20npv", StringIO(NPV_CODE), dummy, 0, 0.0, 0, dummy)
+    STATE.npvnew = algorithm.load("c20npvnew", StringIO(NPV2_CODE), dummy, 0.0)
     # stage C: tuple vectors
     BUILDER.collect = []
     for shape, ref in need_shapes:
@@ -576,6 +596,46 @@ class Exec:
             raise Skip("na")
 
     # ----------------------------------------------------------------------------------------- constructors
+    CTOR_KINDS = ("list", "tuple", "args", "np", "nps2", "nps3", "npsm1", "npsm2", "buf", "zero", "fac",
+                  "ilist", "ituple", "iargs", "npi", "npf32", "np2d")
+    OPERAND_KINDS = ("list", "ilist", "tuple", "np", "nps2", "npsm1", "buf")
+
+    def operand(self, kind, L):
+        """the Python object of kind `kind` holding the numbers L (a fresh object every time)"""
+        np = self.np
+        fl = [float(v) for v in L]
+        if kind == "list":
+            return fl
+        if kind == "ilist":
+            return [int(v) for v in L]
+        if kind == "tuple":
+            return tuple(fl)
+        if kind == "ituple":
+            return tuple(int(v) for v in L)
+        if kind == "np":
+            return np.array(fl, dtype=np.float64)
+        if kind in ("nps2", "nps3"):
+            s = int(kind[3:])
+            base = np.full(max(1, len(fl) * s), 77.0)
+            for j, e in enumerate(fl):
+                base[j * s] = e
+            return base[::s][:len(fl)]
+        if kind in ("npsm1", "npsm2"):
+            s = int(kind[4:])
+            base = np.full(max(1, len(fl) * s), 77.0)
+            for j, e in enumerate(fl):
+                base[len(base) - 1 - j * s] = e
+            return base[::-s][:len(fl)]
+        if kind == "buf":
+            return pyarray.array("d", fl)
+        if kind == "npi":
+            return np.array([int(v) for v in L], dtype=np.int64)
+        if kind == "npf32":
+            return np.array(fl, dtype=np.float32)
+        if kind == "np2d":
+            return np.array([fl, fl], dtype=np.float64)
+        raise ValueError("operand kind " + kind)
+
     def op_new(self, tk):
         self.only("fv", "dyn")
         x = reg(tk[1], "x", NV)
@@ -583,51 +643,41 @@ class Exec:
         L = parse_list(tk[3]) if how != "zero" else []
         if how == "zero" and len(tk) != 3 or how != "zero" and len(tk) != 4:
             raise ValueError("new")
-        if how not in ("list", "tuple", "args", "np", "nps2", "nps3", "npsm1", "npsm2", "buf", "zero", "fac"):
+        if how not in self.CTOR_KINDS:
             raise ValueError("new kind")
-        if self.kind == "dyn" and how not in ("list", "zero"):
+        if self.kind == "dyn" and how in ("args", "iargs", "fac"):
             raise Skip("na")
         if not ok_vals(L):
             raise Skip("skip")
         if how == "fac" and len(L) != self.n:
             raise Skip("skip")
-        np, T = self.np, self.T
-        fl = [float(v) for v in L]
+        T = self.T
+        # which constructor calls are rejected: DynamicVector is constructible from a list only;
+        # the FieldVector buffer constructor wants a one-dimensional buffer of doubles
+        if self.kind == "dyn":
+            bad = None if how in ("list", "ilist", "zero") else "ERR:Type"
+        else:
+            bad = "ERR:Value" if how in ("npi", "npf32", "np2d") else None
 
         def impl():
-            if how == "list":
-                v = T(fl)
-            elif how == "tuple":
-                v = T(tuple(fl))
-            elif how == "args":
-                v = T(*fl)
-            elif how == "np":
-                v = T(np.array(fl, dtype=np.float64))
-            elif how in ("nps2", "nps3"):
-                s = int(how[3:])
-                base = np.full(max(1, len(fl) * s), 77.0)
-                for j, e in enumerate(fl):
-                    base[j * s] = e
-                v = T(base[::s][:len(fl)])
-            elif how in ("npsm1", "npsm2"):
-                s = int(how[4:])
-                base = np.full(max(1, len(fl) * s), 77.0)
-                for j, e in enumerate(fl):
-                    base[len(base) - 1 - j * s] = e
-                view = base[::-s][:len(fl)]
-                v = T(view)
-            elif how == "buf":
-                v = T(pyarray.array("d", fl))
+            if how in ("args", "iargs"):
+                v = T(*self.operand("list" if how == "args" else "ilist", L))
             elif how == "zero":
                 v = T()
-            else:
-                v = STATE.dc.FieldVector(fl)
+            elif how == "fac":
+                v = STATE.dc.FieldVector([float(e) for e in L])
                 if type(v) is not T:
                     return "WRONGCLASS(%s)" % type(v).__name__
+            else:
+                v = T(self.operand(how, L))
+            if type(v) is not T:
+                return "WRONGCLASS(%s)" % type(v).__name__
             self.x[x] = v
             return self.vlist(v)
 
         def exp():
+            if bad:
+                return bad
             blk = self.sh.construct(L)
             self.sh.x[x] = blk
             return fmt_list(blk)
@@ -668,6 +718,29 @@ class Exec:
 
         def exp():
             self.sh.x[x] = list(self.sh.x[y])
+            return fmt_list(self.sh.x[x])
+        return self.both(impl, exp)
+
+    def op_mcopya(self, tk):
+        """v.copy(*numbers): a new vector from the numbers (first n, zero-filled); v.copy() when no numbers are given"""
+        self.only("fv", "dyn")
+        x, y, L = reg(tk[1], "x", NV), reg(tk[2], "x", NV), parse_list(tk[3])
+        if len(tk) != 4:
+            raise ValueError("mcopya")
+        self.only("fv")
+        self.need(self.sh.x[y])
+        if not ok_vals(L):
+            raise Skip("skip")
+
+        def impl():
+            v = self.x[y].copy(*[float(e) for e in L])
+            if type(v) is not self.T:
+                return "WRONGCLASS(%s)" % type(v).__name__
+            self.x[x] = v
+            return self.vlist(v)
+
+        def exp():
+            self.sh.x[x] = self.sh.construct(L) if L else list(self.sh.x[y])
             return fmt_list(self.sh.x[x])
         return self.both(impl, exp)
 
@@ -718,15 +791,35 @@ class Exec:
     def op_sub(self, tk):
         return self._binvv(tk, lambda a, b: a - b, lambda p, q: p - q)
 
-    def _binvl(self, tk, pyop, shop, listfirst):
+    def operand_status(self, kind, reflected=False):
+        """how the bindings treat an operand of Python kind `kind` standing for a vector:
+        'ok' (converted through the constructor), 'type' (TypeError), 'na' (not an operation of the bindings)"""
+        if kind not in self.OPERAND_KINDS:
+            raise ValueError("operand kind " + kind)
+        if kind in ("list", "ilist"):
+            return "ok"
+        if kind == "tuple":
+            # FieldVector: implicit conversion tuple -> vector exists for the left operand's overloads only
+            return "type" if (self.kind == "dyn" or reflected) else "ok"
+        # buffers: FieldVector converts them implicitly; with a DynamicVector or as left operand NumPy/array take over
+        return "ok" if (self.kind == "fv" and not reflected) else "na"
+
+    def _binvl(self, tk, pyop, shop, listfirst, kinded=False):
         self.only("fv", "dyn")
         x = reg(tk[1], "x", NV)
-        if len(tk) != 4:
+        if len(tk) != (5 if kinded else 4):
             raise ValueError("binvl")
+        kind = "list"
+        if kinded:
+            kind = tk[2]
+            tk = tk[:2] + tk[3:]
         if listfirst:
             L, y = parse_list(tk[2]), reg(tk[3], "x", NV)
         else:
             y, L = reg(tk[2], "x", NV), parse_list(tk[3])
+        status = self.operand_status(kind, listfirst)
+        if status == "na":
+            raise Skip("na")
         self.need(self.sh.x[y])
         A = self.sh.x[y]
         if not ok_vals(L):
@@ -737,14 +830,18 @@ class Exec:
         R = [shop(q, p) if listfirst else shop(p, q) for p, q in zip(A, B)]
         if not ok_vals(R):
             raise Skip("skip")
-        fl = [float(v) for v in L]
 
         def impl():
-            v = pyop(fl, self.x[y]) if listfirst else pyop(self.x[y], fl)
+            o = self.operand(kind, L)
+            v = pyop(o, self.x[y]) if listfirst else pyop(self.x[y], o)
+            if type(v) is not self.T:
+                return "WRONGCLASS(%s)" % type(v).__name__
             self.x[x] = v
             return self.vlist(v)
 
         def exp():
+            if status == "type":
+                return "ERR:Type"
             self.sh.x[x] = R
             return fmt_list(R)
         return self.both(impl, exp)
@@ -761,7 +858,22 @@ class Exec:
     def op_rsubl(self, tk):
         return self._binvl(tk, lambda a, b: a - b, lambda p, q: p - q, True)
 
-    def _scal(self, tk, which):
+    # the same with an operand kind:  addo x KIND y L  /  raddo x KIND L y
+    def op_addo(self, tk):
+        return self._binvl(tk, lambda a, b: a + b, lambda p, q: p + q, False, True)
+
+    def op_subo(self, tk):
+        return self._binvl(tk, lambda a, b: a - b, lambda p, q: p - q, False, True)
+
+    def op_raddo(self, tk):
+        return self._binvl(tk, lambda a, b: a + b, lambda p, q: p + q, True, True)
+
+    def op_rsubo(self, tk):
+        return self._binvl(tk, lambda a, b: a - b, lambda p, q: p - q, True, True)
+
+    def _scal(self, tk, which, isint=False):
+        """vector * scalar, scalar * vector, vector / scalar, vector.__div__(scalar), -vector; the scalar is a Python float
+        or (isint) a Python int.  FieldVector<K,1> * int is the dot product with the vector the int converts to: a float."""
         self.only("fv", "dyn")
         x = reg(tk[1], "x", NV)
         if which == "neg":
@@ -780,7 +892,7 @@ class Exec:
         A = self.sh.x[y]
         if abs(k) > BOUND:
             raise Skip("skip")
-        if which == "div":
+        if which in ("div", "ldiv"):
             if k == 0 or any(e % k for e in A):
                 raise Skip("skip")
             R = [e // k for e in A]
@@ -788,17 +900,23 @@ class Exec:
             R = [e * k for e in A]
         if not ok_vals(R):
             raise Skip("skip")
+        asdot = isint and self.sh.sm() and which in ("mul", "rmul")
+        kk = int(k) if isint else float(k)
 
         def impl():
             o = self.x[y]
-            v = {"mul": lambda: o * float(k), "rmul": lambda: float(k) * o, "div": lambda: o / float(k),
+            v = {"mul": lambda: o * kk, "rmul": lambda: kk * o, "div": lambda: o / kk, "ldiv": lambda: o.__div__(kk),
                  "neg": lambda: -o}[which]()
+            if asdot and type(v) is float:
+                return "f:" + canon(v)
             if type(v) is not self.T:
                 return "WRONGCLASS(%s)" % type(v).__name__
             self.x[x] = v
             return self.vlist(v)
 
         def exp():
+            if asdot:
+                return "f:" + str(R[0])
             self.sh.x[x] = R
             return fmt_list(R)
         return self.both(impl, exp)
@@ -812,12 +930,25 @@ class Exec:
     def op_div(self, tk):
         return self._scal(tk, "div")
 
+    def op_ldiv(self, tk):
+        return self._scal(tk, "ldiv")
+
     def op_neg(self, tk):
         return self._scal(tk, "neg")
 
-    def _intscal(self, tk, which):
+    def op_muli(self, tk):
+        return self._scal(tk, "mul", True)
+
+    def op_rmuli(self, tk):
+        return self._scal(tk, "rmul", True)
+
+    def op_divi(self, tk):
+        return self._scal(tk, "div", True)
+
+    def _intscal(self, tk, which, isfloat=False):
         """vector (+|-) Python int and reflected: entry arithmetic for FieldVector<K,1>; for every other vector only
-        the neutral 0 is accepted (returning the vector itself, or its negation for 0 - v), else ValueError"""
+        the neutral int 0 is accepted (returning the vector itself, or its negation for 0 - v), else ValueError.
+        With a Python float (isfloat): entry arithmetic for FieldVector<K,1>, TypeError for every other vector."""
         self.only("fv", "dyn")
         x = reg(tk[1], "x", NV)
         if len(tk) != 4:
@@ -835,16 +966,21 @@ class Exec:
             R = [{"addi": A[0] + k, "subi": A[0] - k, "raddi": k + A[0], "rsubi": k - A[0]}[which]]
             if not ok_vals(R):
                 raise Skip("skip")
+        kk = float(k) if isfloat else int(k)
 
         def impl():
             o = self.x[y]
-            v = {"addi": lambda: o + k, "subi": lambda: o - k, "raddi": lambda: k + o, "rsubi": lambda: k - o}[which]()
+            v = {"addi": lambda: o + kk, "subi": lambda: o - kk, "raddi": lambda: kk + o, "rsubi": lambda: kk - o}[which]()
+            if type(v) is not self.T:
+                return "WRONGCLASS(%s)" % type(v).__name__
             self.x[x] = v
             return self.vlist(v)
 
         def exp():
             if sm:
                 self.sh.x[x] = R
+            elif isfloat:
+                return "ERR:Type"
             elif k != 0:
                 return "ERR:Value"
             elif which == "rsubi":
@@ -866,15 +1002,32 @@ class Exec:
     def op_rsubi(self, tk):
         return self._intscal(tk, "rsubi")
 
+    def op_addf(self, tk):
+        return self._intscal(tk, "addi", True)
+
+    def op_subf(self, tk):
+        return self._intscal(tk, "subi", True)
+
+    def op_raddf(self, tk):
+        return self._intscal(tk, "raddi", True)
+
+    def op_rsubf(self, tk):
+        return self._intscal(tk, "rsubi", True)
+
     # --------------------------------------------------------------------------------------------- in place
-    def _inplace(self, tk, which):
+    def _inplace(self, tk, which, kinded=False, isint=False):
         self.only("fv", "dyn")
         x = reg(tk[1], "x", NV)
-        if len(tk) != 3:
+        if len(tk) != (4 if kinded else 3):
             raise ValueError(which)
+        okind = "list"
+        if kinded:
+            okind = tk[2]
+            tk = tk[:2] + tk[3:]
         self.need(self.sh.x[x])
         A = self.sh.x[x]
         rhs = None
+        status = "ok"
         if which in ("iadd", "isub"):
             y = reg(tk[2], "x", NV)
             self.need(self.sh.x[y])
@@ -884,18 +1037,21 @@ class Exec:
             rhs = ("v", y)
         elif which in ("iaddl", "isubl"):
             L = parse_list(tk[2])
+            status = self.operand_status(okind)
+            if status == "na":
+                raise Skip("na")
             if not ok_vals(L):
                 raise Skip("skip")
             if self.kind == "dyn" and len(L) != len(A):
                 raise Skip("skip")
             B = self.sh.construct(L)
-            rhs = ("l", [float(v) for v in L])
+            rhs = ("l", L)
         else:
             k = int(tk[2])
             if abs(k) > BOUND:
                 raise Skip("skip")
             B = [k] * len(A)
-            rhs = ("s", float(k))
+            rhs = ("s", int(k) if isint else float(k))
         if which in ("iadd", "iaddl", "iadds"):
             R = [p + q for p, q in zip(A, B)]
         elif which in ("isub", "isubl", "isubs"):
@@ -911,7 +1067,7 @@ class Exec:
 
         def impl():
             o = self.x[x]
-            r = self.x[rhs[1]] if rhs[0] == "v" else rhs[1]
+            r = self.x[rhs[1]] if rhs[0] == "v" else self.operand(okind, rhs[1]) if rhs[0] == "l" else rhs[1]
             if which in ("iadd", "iaddl", "iadds"):
                 o += r
             elif which in ("isub", "isubl", "isubs"):
@@ -920,10 +1076,13 @@ class Exec:
                 o *= r
             else:
                 o /= r
-            self.x[x] = o
+            if o is not self.x[x]:
+                return "NEWOBJECT(%s)" % type(o).__name__
             return self.vlist(o)
 
         def exp():
+            if status == "type":
+                return "ERR:Type"
             A[:] = R          # in place: every alias and view sees it
             return fmt_list(A)
         return self.both(impl, exp)
@@ -940,6 +1099,12 @@ class Exec:
     def op_isubl(self, tk):
         return self._inplace(tk, "isubl")
 
+    def op_iaddo(self, tk):
+        return self._inplace(tk, "iaddl", True)
+
+    def op_isubo(self, tk):
+        return self._inplace(tk, "isubl", True)
+
     def op_iadds(self, tk):
         return self._inplace(tk, "iadds")
 
@@ -951,6 +1116,18 @@ class Exec:
 
     def op_idivs(self, tk):
         return self._inplace(tk, "idivs")
+
+    def op_iaddi(self, tk):
+        return self._inplace(tk, "iadds", isint=True)
+
+    def op_isubi(self, tk):
+        return self._inplace(tk, "isubs", isint=True)
+
+    def op_imuli(self, tk):
+        return self._inplace(tk, "imuls", isint=True)
+
+    def op_idivi(self, tk):
+        return self._inplace(tk, "idivs", isint=True)
 
     def op_assign(self, tk):
         self.only("fv", "dyn")
@@ -968,17 +1145,44 @@ class Exec:
             return fmt_list(self.sh.x[x])
         return self.both(impl, exp)
 
-    def op_set(self, tk):
+    def op_assigno(self, tk):
+        """v.assign(<list|tuple|buffer>): the argument is converted to a vector first"""
+        self.only("fv", "dyn")
+        x, okind, L = reg(tk[1], "x", NV), tk[2], parse_list(tk[3])
+        if len(tk) != 4:
+            raise ValueError("assigno")
+        status = self.operand_status(okind)
+        if status == "na":
+            raise Skip("na")
+        self.need(self.sh.x[x])
+        if not ok_vals(L):
+            raise Skip("skip")
+
+        def impl():
+            self.x[x].assign(self.operand(okind, L))
+            return self.vlist(self.x[x])
+
+        def exp():
+            if status == "type":
+                return "ERR:Type"
+            self.sh.x[x][:] = self.sh.construct(L)
+            return fmt_list(self.sh.x[x])
+        return self.both(impl, exp)
+
+    def _set(self, tk, npidx):
         self.only("fv", "dyn")
         x, i, k = reg(tk[1], "x", NV), int(tk[2]), int(tk[3])
         if len(tk) != 4:
             raise ValueError("set")
         self.need(self.sh.x[x])
-        if abs(k) > BOUND or abs(i) > (1 << 40):
+        if abs(k) > BOUND:
             raise Skip("skip")
+        if npidx and not (-(1 << 63) <= i < (1 << 63)):
+            raise Skip("skip")
+        ii = self.np.int64(i) if npidx else i
 
         def impl():
-            self.x[x][i] = float(k)
+            self.x[x][ii] = float(k)
             return self.vlist(self.x[x])
 
         def exp():
@@ -990,21 +1194,40 @@ class Exec:
             return fmt_list(A)
         return self.both(impl, exp)
 
+    def op_set(self, tk):
+        return self._set(tk, False)
+
+    def op_setn(self, tk):
+        return self._set(tk, True)
+
     # ----------------------------------------------------------------------------------------- observations
-    def op_get(self, tk):
+    def _get(self, tk, npidx):
         self.only("fv", "dyn")
         x, i = reg(tk[1], "x", NV), int(tk[2])
         if len(tk) != 3:
             raise ValueError("get")
         self.need(self.sh.x[x])
-        if abs(i) > (1 << 40):
+        if npidx and not (-(1 << 63) <= i < (1 << 63)):
             raise Skip("skip")
+        ii = self.np.int64(i) if npidx else i
+
+        def impl():
+            r = self.x[x][ii]
+            if type(r) is not float:
+                return "BADTYPE(%s)" % type(r).__name__
+            return canon(r)
 
         def exp():
             A = self.sh.x[x]
             p = py_index(i, len(A))
             return "ERR:Index" if p is None else str(A[p])
-        return self.both(lambda: canon(self.x[x][i]), exp)
+        return self.both(impl, exp)
+
+    def op_get(self, tk):
+        return self._get(tk, False)
+
+    def op_getn(self, tk):
+        return self._get(tk, True)
 
     def op_len(self, tk):
         self.only("fv", "dyn")
@@ -1023,7 +1246,8 @@ class Exec:
         return self.both(lambda: fmt_list([canon(e) for e in self.x[x]]), lambda: fmt_list(self.sh.x[x]))
 
     def op_str(self, tk):
-        """str() (FieldVector) / repr() (DynamicVector): '(' entries printed with %f, joined by ', ' ')'"""
+        """str() and repr() (FieldVector) / repr() (DynamicVector): '(' entries printed with %f, joined by ', ' ')';
+        the observation is that string with every number canonicalised, e.g. `(1, -2, 0)`"""
         self.only("fv", "dyn")
         x = reg(tk[1], "x", NV)
         if len(tk) != 2:
@@ -1043,17 +1267,9 @@ class Exec:
                 if not s.startswith("Dune::DynamicVector: "):
                     return "BADREPR(%s)" % s
                 s = s[len("Dune::DynamicVector: "):]
-            if not (s.startswith("(") and s.endswith(")")):
-                return "BADSTR(%s)" % s
-            inner = s[1:-1]
-            parts = inner.split(", ") if inner else []
-            out = []
-            for p in parts:
-                if not re.fullmatch(r"-?\d+\.\d{6}", p):
-                    return "BADSTR(%s)" % s
-                out.append(canon(float(p)))
-            return fmt_list(out)
-        return self.both(impl, lambda: fmt_list(self.sh.x[x]))
+            # keep the structure of the string (parentheses, delimiters), canonicalise the %f-printed numbers in it
+            return re.sub(r"-?\d+\.\d{6}(?!\d)", lambda m: canon(float(m.group(0))), s)
+        return self.both(impl, lambda: "(" + ", ".join(str(e) for e in self.sh.x[x]) + ")")
 
     def op_slice(self, tk):
         self.only("fv", "dyn")
@@ -1087,20 +1303,27 @@ class Exec:
     def op_ne(self, tk):
         return self._cmpv(tk, True)
 
-    def _cmpl(self, tk, neg):
+    def _cmpl(self, tk, neg, kinded=False):
         self.only("fv", "dyn")
-        x, L = reg(tk[1], "x", NV), parse_list(tk[2])
-        if len(tk) != 3:
+        x = reg(tk[1], "x", NV)
+        if len(tk) != (4 if kinded else 3):
             raise ValueError("cmpl")
+        okind = "list"
+        if kinded:
+            okind = tk[2]
+            tk = tk[:2] + tk[3:]
+        L = parse_list(tk[2])
+        if self.operand_status(okind) != "ok":
+            raise Skip("na")          # Python falls back to comparing identities: not an operation of the bindings
         self.need(self.sh.x[x])
         if not ok_vals(L):
             raise Skip("skip")
         if self.kind == "dyn" and len(L) != len(self.sh.x[x]):
             raise Skip("skip")
-        fl = [float(v) for v in L]
 
         def impl():
-            r = (self.x[x] != fl) if neg else (self.x[x] == fl)
+            o = self.operand(okind, L)
+            r = (self.x[x] != o) if neg else (self.x[x] == o)
             return "true" if r is True else "false" if r is False else "NOTBOOL(%r)" % (r,)
         return self.both(impl, lambda: "true" if ((self.sh.x[x] == self.sh.construct(L)) != neg) else "false")
 
@@ -1109,6 +1332,12 @@ class Exec:
 
     def op_nel(self, tk):
         return self._cmpl(tk, True)
+
+    def op_eqo(self, tk):
+        return self._cmpl(tk, False, True)
+
+    def op_neo(self, tk):
+        return self._cmpl(tk, True, True)
 
     def op_norms(self, tk):
         self.only("fv", "dyn")
@@ -1142,19 +1371,46 @@ class Exec:
         return self.both(lambda: canon(self.x[x] * self.x[y]),
                          lambda: str(sum(p * q for p, q in zip(self.sh.x[x], self.sh.x[y]))))
 
-    def op_dotl(self, tk):
+    def _dotl(self, tk, reflected, kinded=False):
         self.only("fv", "dyn")
-        x, L = reg(tk[1], "x", NV), parse_list(tk[2])
-        if len(tk) != 3:
+        x = reg(tk[1], "x", NV)
+        if len(tk) != (4 if kinded else 3):
             raise ValueError("dotl")
+        okind = "list"
+        if kinded:
+            okind = tk[2]
+            tk = tk[:2] + tk[3:]
+        L = parse_list(tk[2])
+        status = self.operand_status(okind)
+        if status == "na":
+            raise Skip("na")
         self.need(self.sh.x[x])
         if not ok_vals(L):
             raise Skip("skip")
         if self.kind == "dyn" and len(L) != len(self.sh.x[x]):
             raise Skip("skip")
-        fl = [float(v) for v in L]
-        return self.both(lambda: canon(self.x[x] * fl),
-                         lambda: str(sum(p * q for p, q in zip(self.sh.x[x], self.sh.construct(L)))))
+
+        def impl():
+            o = self.operand(okind, L)
+            r = (o * self.x[x]) if reflected else (self.x[x] * o)
+            if type(r) is not float:
+                return "BADTYPE(%s)" % type(r).__name__
+            return canon(r)
+
+        def exp():
+            if status == "type":
+                return "ERR:Type"
+            return str(sum(p * q for p, q in zip(self.sh.x[x], self.sh.construct(L))))
+        return self.both(impl, exp)
+
+    def op_dotl(self, tk):
+        return self._dotl(tk, False)
+
+    def op_rdotl(self, tk):
+        return self._dotl(tk, True)
+
+    def op_doto(self, tk):
+        return self._dotl(tk, False, True)
 
     def op_float(self, tk):
         self.only("fv", "dyn")
@@ -1370,6 +1626,56 @@ class Exec:
             return fmt_list(va.vals())
         return self.both(impl, exp)
 
+    def op_nadd(self, tk):
+        """x += y on two NumPy-backed C++ vectors"""
+        self.only("fv", "dyn")
+        a, b = reg(tk[1], "a", NA), reg(tk[2], "a", NA)
+        if len(tk) != 3:
+            raise ValueError("nadd")
+        self.need(self.sh.a[a], self.sh.a[b])
+        va, vb = self.sh.a[a], self.sh.a[b]
+        if len(va.rng) != len(vb.rng):
+            raise Skip("skip")
+        if va.blk is vb.blk and va.rng != vb.rng:       # overlapping but different views: order dependent
+            raise Skip("skip")
+        R = [p + q for p, q in zip(va.vals(), vb.vals())]
+        if not ok_vals(R):
+            raise Skip("skip")
+
+        def impl():
+            self._npv(a, 3, 0, 0, b)
+            return self.alist(self.a[a])
+
+        def exp():
+            for p, r in zip(va.rng, R):
+                va.blk[p] = r
+            return fmt_list(va.vals())
+        return self.both(impl, exp)
+
+    def op_nnew(self, tk):
+        """a NumPyVector constructed with a size owns a fresh array: a := k * b as a new, independent array"""
+        self.only("fv", "dyn")
+        a, b, k = reg(tk[1], "a", NA), reg(tk[2], "a", NA), int(tk[3])
+        if len(tk) != 4:
+            raise ValueError("nnew")
+        self.need(self.sh.a[b])
+        vb = self.sh.a[b]
+        R = [k * q for q in vb.vals()]
+        if abs(k) > BOUND or not ok_vals(R):
+            raise Skip("skip")
+
+        def impl():
+            arr = STATE.npvnew(self.a[b], float(k))
+            if type(arr) is not self.np.ndarray or arr.dtype != self.np.float64 or arr.ndim != 1:
+                return "BADARRAY(%s)" % type(arr).__name__
+            self.a[a] = arr
+            return self.alist(arr)
+
+        def exp():
+            self.sh.a[a] = SView(R, range(len(R)))
+            return fmt_list(R)
+        return self.both(impl, exp)
+
     def op_nrun(self, tk):
         """the loop of the repo's pythontests (x[i] += i through a NumPyVector)"""
         self.only("fv", "dyn")
@@ -1473,11 +1779,11 @@ class Exec:
         if len(tk) != 3:
             raise ValueError("tget")
         self.need(self.sh.t[t])
-        if i < 0 or i > (1 << 40):
-            raise Skip("skip")
 
         def exp():
             T = self.sh.t[t]
+            if i < 0 or i >= (1 << 64):
+                return "ERR:Type"             # the index is a std::size_t
             return self.telem_sh(T[i]) if i < len(T) else "ERR:Index"
         return self.both(lambda: self.telem_real(self.t[t][i]), exp)
 
@@ -1495,16 +1801,17 @@ class Exec:
         if len(tk) != 4:
             raise ValueError("tset")
         self.need(self.sh.t[t])
-        if i < 0 or i > (1 << 40):
-            raise Skip("skip")
         T = self.sh.t[t]
-        if what == "f":
+        if what in ("f", "l"):
             L = parse_list(tk[3])
-            if not ok_vals(L) or len(L) not in STATE.FV or len(L) < 2:
+            if not ok_vals(L) or len(L) not in (2, 3):       # the tuple shapes have FieldVector entries of size 2 and 3
                 raise Skip("skip")
-            if i < len(T) and T[i][0] == "F" and len(T[i][1]) != len(L):
+            if 0 <= i < len(T) and T[i][0] == "F" and len(T[i][1]) != len(L):
                 raise Skip("skip")           # different FieldVector size: conversion through the buffer, not modelled
-            val = lambda: STATE.dc.FieldVector([float(v) for v in L])   # noqa: E731
+            if what == "f":
+                val = lambda: STATE.dc.FieldVector([float(v) for v in L])   # noqa: E731
+            else:
+                val = lambda: [float(v) for v in L]   # noqa: E731    (a list converts to the FieldVector entry)
         else:
             k = int(tk[3])
             if abs(k) > BOUND:
@@ -1516,10 +1823,12 @@ class Exec:
             return self.tdump_real(self.t[t])
 
         def exp():
+            if i < 0 or i >= (1 << 64):
+                return "ERR:Type"             # the index is a std::size_t
             if i >= len(T):
                 return "ERR:Index"
             kind = T[i][0]
-            if what == "f":
+            if what in ("f", "l"):
                 if kind != "F":
                     return "ERR:Runtime"
                 T[i][1][:] = L
@@ -1541,6 +1850,9 @@ class Exec:
     def op_tsetf(self, tk):
         return self._tset(tk, "f")
 
+    def op_tsetl(self, tk):
+        return self._tset(tk, "l")
+
     def _elem(self, tk, src):
         """t[i][j] = k   resp.   source_of_t[i][j] = k : writes through the element handle / the Python-side object"""
         self.only("tup")
@@ -1549,7 +1861,7 @@ class Exec:
             raise ValueError("elem")
         self.need(self.sh.t[t])
         T = (self.sh.s if src else self.sh.t)[t]
-        if not (0 <= i < len(T)) or abs(k) > BOUND or abs(j) > (1 << 40):
+        if not (0 <= i < len(T)) or abs(k) > BOUND:
             raise Skip("skip")
         if T[i][0] != "F":
             raise Skip("skip")
@@ -1754,6 +2066,17 @@ def gen_index(r, n):
     c = r.below(12)
     if c < 5:
         return r.range(-n, n - 1) if n else 0
+    if c < 9:
+        return r.pick([-n - 1, -n, -1, 0, n - 1, n, n + 1, -n - 2, n + 2])
+    return r.pick([1 << 33, -(1 << 33), 1000, -1000, (1 << 63) - 1, 1 << 63, -(1 << 63), -(1 << 63) - 1, 1 << 64, -(1 << 64),
+                   (1 << 31) - 1, 1 << 31, -(1 << 31), 1 << 32, (1 << 64) - 1, (1 << 64) + 1, 10 ** 30])
+
+
+def gen_index_np(r, n):
+    """indices for NumPy's own indexing (the views): NumPy, not the bindings, decides about integers beyond 2^63"""
+    c = r.below(12)
+    if c < 5:
+        return r.range(-n, n - 1) if n else 0
     if c < 10:
         return r.pick([-n - 1, -n, -1, 0, n - 1, n, n + 1, -n - 2, n + 2])
     return r.pick([1 << 33, -(1 << 33), 1000, -1000])
@@ -1786,10 +2109,11 @@ def gen_program(r, idx, tier):
             u = "t%d" % r.weighted([(0, 3), (1, 2)])
             if int(u[1]) not in bt and not r.coin(1, 10):
                 u = "t%d" % r.pick(sorted(bt))
-            i = r.weighted([(r.below(len(slots)), 8), (len(slots), 1), (len(slots) + 1, 1)])
-            w = slot_width(slots[i]) if i < len(slots) else 2
+            i = r.weighted([(r.below(len(slots)), 16), (len(slots), 2), (len(slots) + 1, 2), (-1, 1),
+                            (r.pick([-len(slots), 1 << 63, 1 << 64, (1 << 64) - 1, -(1 << 63)]), 1)])
+            w = slot_width(slots[i]) if 0 <= i < len(slots) else 2
             op = r.weighted([("tnew", 2), ("tnewa", 1), ("tlen", 1), ("tget", 4), ("tlist", 1), ("tsetd", 3), ("tseti", 3),
-                             ("tsetf", 3), ("tsetel", 4), ("srcset", 4), ("tcopy", 3), ("tassign", 2)])
+                             ("tsetf", 3), ("tsetl", 2), ("tsetel", 4), ("srcset", 4), ("tcopy", 3), ("tassign", 2)])
             if op not in ("tnew", "tnewa", "tcopy") and int(t[1]) not in bt and not r.coin(1, 10):
                 t = "t%d" % r.pick(sorted(bt))
             if op in ("tnew", "tnewa", "tcopy"):
@@ -1803,9 +2127,9 @@ def gen_program(r, idx, tier):
                 segs.append("tget %s %d" % (t, i))
             elif op in ("tsetd", "tseti"):
                 segs.append("%s %s %d %d" % (op, t, i, gen_val(r)))
-            elif op == "tsetf":
-                m = w if (i < len(slots) and slots[i][0] == "F") else r.pick([2, 3])
-                segs.append("tsetf %s %d %s" % (t, i, fmt_list([gen_val(r) for _ in range(m)])))
+            elif op in ("tsetf", "tsetl"):
+                m = w if (0 <= i < len(slots) and slots[i][0] == "F") else r.pick([2, 3])
+                segs.append("%s %s %d %s" % (op, t, i, fmt_list([gen_val(r) for _ in range(m)])))
             elif op in ("tsetel", "srcset"):
                 segs.append("%s %s %d %d %d" % (op, t, i, gen_index(r, w), gen_val(r)))
             else:
@@ -1816,8 +2140,14 @@ def gen_program(r, idx, tier):
     n = (r.pick(FV_SIZES_ALL if tier == "thorough" else FV_SIZES) if kind == "fv"
          else r.weighted([(3, 4), (1, 1), (2, 2), (5, 2), (0, 1)]))
     stat("kind_%s_n%d" % (kind, n))
-    ctor_kinds = (["list", "tuple", "args", "np", "nps2", "nps3", "npsm1", "npsm2", "buf", "zero", "fac"]
-                  if kind == "fv" else ["list", "list", "zero"])
+    ctor_kinds = (["list", "tuple", "args", "np", "nps2", "nps3", "npsm1", "npsm2", "buf", "zero", "fac",
+                   "list", "tuple", "args", "np", "nps2", "nps3", "npsm1", "npsm2", "buf", "zero", "fac",
+                   "ilist", "ituple", "iargs", "iargs", "npi", "npf32", "np2d"]
+                  if kind == "fv" else ["list", "list", "list", "list", "zero", "zero", "ilist", "tuple", "np", "buf", "npi"])
+    okinds_all = ["list", "ilist", "tuple", "np", "nps2", "npsm1", "buf"]
+
+    def okind():
+        return r.pick(okinds_all if kind == "fv" else ["list", "ilist", "tuple", "tuple", "np"])
 
     bx, ba = set(), set()       # registers that are (probably) bound so far
 
@@ -1846,16 +2176,20 @@ def gen_program(r, idx, tier):
     segs = [ctor(xr(True))]
     if r.coin(2, 3):
         segs.append(ctor(xr(True)))
-    ops = [("new", 6), ("copy", 3), ("mcopy", 3), ("alias", 3), ("add", 3), ("sub", 3), ("addl", 2), ("subl", 2),
-           ("raddl", 2), ("rsubl", 3), ("mul", 2), ("rmul", 2), ("div", 2), ("neg", 2), ("addi", 2), ("subi", 2),
-           ("raddi", 2), ("rsubi", 3), ("iadd", 3), ("isub", 3), ("iaddl", 2), ("isubl", 2), ("iadds", 2), ("isubs", 2),
-           ("imuls", 2), ("idivs", 2), ("assign", 2), ("set", 8), ("get", 8), ("len", 1), ("iter", 2), ("str", 2),
-           ("slice", 4), ("eq", 2), ("ne", 2), ("eql", 2), ("nel", 2), ("norms", 3), ("dot", 2), ("dotl", 2), ("float", 1),
+    ops = [("new", 6), ("copy", 3), ("mcopy", 3), ("mcopya", 2), ("alias", 3), ("add", 3), ("sub", 3), ("addl", 2), ("subl", 2),
+           ("raddl", 2), ("rsubl", 3), ("addo", 2), ("subo", 2), ("raddo", 1), ("rsubo", 1),
+           ("mul", 2), ("rmul", 2), ("div", 2), ("ldiv", 1), ("muli", 2), ("rmuli", 2), ("divi", 1), ("neg", 2),
+           ("addi", 2), ("subi", 2), ("raddi", 2), ("rsubi", 3), ("addf", 1), ("subf", 1), ("raddf", 1), ("rsubf", 2),
+           ("iadd", 3), ("isub", 3), ("iaddl", 2), ("isubl", 2), ("iaddo", 1), ("isubo", 1), ("iadds", 2), ("isubs", 2),
+           ("imuls", 2), ("idivs", 2), ("iaddi", 1), ("isubi", 1), ("imuli", 1), ("idivi", 1), ("assign", 2), ("assigno", 2),
+           ("set", 8), ("get", 8), ("setn", 1), ("getn", 2), ("len", 1), ("iter", 2), ("str", 2),
+           ("slice", 4), ("eq", 2), ("ne", 2), ("eql", 2), ("nel", 2), ("eqo", 1), ("neo", 1), ("norms", 3), ("dot", 2),
+           ("dotl", 2), ("rdotl", 2), ("doto", 1), ("float", 1),
            ("view", 5), ("npcopy", 3), ("sl", 6), ("aget", 3), ("aset", 6), ("alist", 1), ("nscale", 3), ("nset", 3),
-           ("nget", 2), ("nnorms", 2), ("naxpy", 3), ("nrun", 2)]
+           ("nget", 2), ("nnorms", 2), ("naxpy", 3), ("nadd", 2), ("nnew", 2), ("nrun", 2)]
     while len(segs) < nseg:
         op = r.weighted(ops)
-        if op in ("aget", "aset", "alist", "nscale", "nset", "nget", "nnorms", "naxpy", "nrun") and not ba:
+        if op in ("aget", "aset", "alist", "nscale", "nset", "nget", "nnorms", "naxpy", "nadd", "nnew", "nrun") and not ba:
             op = r.pick(["view", "sl", "npcopy"]) if kind == "fv" else "npcopy"
         stat("op_" + op)
         if op == "new":
@@ -1863,6 +2197,18 @@ def gen_program(r, idx, tier):
         elif op in ("copy", "mcopy", "alias"):
             y = xr()
             segs.append("%s %s %s" % (op, xr(True), y))
+        elif op == "mcopya":
+            y = xr()
+            segs.append("mcopya %s %s %s" % (xr(True), y, gen_list(r, n) if r.coin(5, 6) else "[]"))
+        elif op in ("addo", "subo"):
+            y = xr()
+            segs.append("%s %s %s %s %s" % (op, xr(True), okind(), y, gen_list(r, n, kind == "dyn" and r.coin(4, 5))))
+        elif op in ("raddo", "rsubo"):
+            y = xr()
+            segs.append("%s %s %s %s %s" % (op, xr(True), r.pick(["tuple", "tuple", "ilist", "np"]),
+                                            gen_list(r, n, kind == "dyn" and r.coin(4, 5)), y))
+        elif op in ("iaddo", "isubo", "eqo", "neo", "doto", "assigno"):
+            segs.append("%s %s %s %s" % (op, xr(), okind(), gen_list(r, n, kind == "dyn" and r.coin(4, 5))))
         elif op in ("assign", "iadd", "isub", "eq", "ne", "dot"):
             segs.append("%s %s %s" % (op, xr(), xr()))
         elif op in ("add", "sub"):
@@ -1874,29 +2220,29 @@ def gen_program(r, idx, tier):
         elif op in ("raddl", "rsubl"):
             y = xr()
             segs.append("%s %s %s %s" % (op, xr(True), gen_list(r, n, kind == "dyn" and r.coin(4, 5)), y))
-        elif op in ("mul", "div"):
+        elif op in ("mul", "div", "ldiv", "muli", "divi"):
             y = xr()
             segs.append("%s %s %s %d" % (op, xr(True), y, gen_scalar(r)))
-        elif op == "rmul":
+        elif op in ("rmul", "rmuli"):
             y = xr()
-            segs.append("rmul %s %d %s" % (xr(True), gen_scalar(r), y))
+            segs.append("%s %s %d %s" % (op, xr(True), gen_scalar(r), y))
         elif op == "neg":
             y = xr()
             segs.append("neg %s %s" % (xr(True), y))
-        elif op in ("addi", "subi"):
+        elif op in ("addi", "subi", "addf", "subf"):
             y = xr()
             segs.append("%s %s %s %d" % (op, xr(True), y, r.weighted([(0, 3), (gen_scalar(r), 2)])))
-        elif op in ("raddi", "rsubi"):
+        elif op in ("raddi", "rsubi", "raddf", "rsubf"):
             y = xr()
             segs.append("%s %s %d %s" % (op, xr(True), r.weighted([(0, 3), (gen_scalar(r), 2)]), y))
-        elif op in ("iaddl", "isubl", "eql", "nel", "dotl"):
+        elif op in ("iaddl", "isubl", "eql", "nel", "dotl", "rdotl"):
             segs.append("%s %s %s" % (op, xr(), gen_list(r, n, kind == "dyn" and r.coin(4, 5))))
-        elif op in ("iadds", "isubs", "imuls", "idivs"):
+        elif op in ("iadds", "isubs", "imuls", "idivs", "iaddi", "isubi", "imuli", "idivi"):
             segs.append("%s %s %d" % (op, xr(), gen_scalar(r)))
-        elif op == "set":
-            segs.append("set %s %d %d" % (xr(), gen_index(r, n), gen_val(r)))
-        elif op == "get":
-            segs.append("get %s %d" % (xr(), gen_index(r, n)))
+        elif op in ("set", "setn"):
+            segs.append("%s %s %d %d" % (op, xr(), gen_index(r, n), gen_val(r)))
+        elif op in ("get", "getn"):
+            segs.append("%s %s %d" % (op, xr(), gen_index(r, n)))
         elif op in ("len", "iter", "str", "norms", "float"):
             segs.append("%s %s" % (op, xr()))
         elif op == "slice":
@@ -1908,9 +2254,9 @@ def gen_program(r, idx, tier):
             segs.append("sl %s %s %s %s %s" % (ar(True), xr(), gen_slice_idx(r, n), gen_slice_idx(r, n),
                                                r.pick(["_", "1", "2", "-1", "-2", "3"])))
         elif op == "aget":
-            segs.append("aget %s %d" % (ar(), gen_index(r, n)))
+            segs.append("aget %s %d" % (ar(), gen_index_np(r, n)))
         elif op == "aset":
-            segs.append("aset %s %d %d" % (ar(), gen_index(r, max(1, n - r.below(2))), gen_val(r)))
+            segs.append("aset %s %d %d" % (ar(), gen_index_np(r, max(1, n - r.below(2))), gen_val(r)))
         elif op in ("alist", "nnorms", "nrun"):
             segs.append("%s %s" % (op, ar()))
         elif op == "nscale":
@@ -1921,6 +2267,11 @@ def gen_program(r, idx, tier):
             segs.append("nget %s %d" % (ar(), r.range(0, max(0, n - 1))))
         elif op == "naxpy":
             segs.append("naxpy %s %d %s" % (ar(), gen_scalar(r), ar()))
+        elif op == "nadd":
+            segs.append("nadd %s %s" % (ar(), ar()))
+        elif op == "nnew":
+            b = ar()
+            segs.append("nnew %s %s %d" % (ar(True), b, gen_scalar(r)))
     return "%s %d : %s" % (kind, n, ";".join(segs))
 
 
